@@ -249,7 +249,7 @@ def ens_cases(draw, tier):
         c['npts'] = draw(st.sampled_from([1, 2, 3, 4, 4, 4, 5] + ([6, 8] if thorough else [])))
         c['rtol'] = draw(st.sampled_from([None, None, 0.5, -0.5]))
     c['nested'] = draw(st.sampled_from(['NM', 'NM', 'PW', 'DE', 'DE2']))
-    c['as'] = draw(st.sampled_from(['class', 'class', 'instance']))
+    c['as'] = draw(st.sampled_from(['class', 'class', 'class', 'instance', 'instance', 'bare']))
     if c['nested'] in ('DE', 'DE2'):
         c['NP'] = draw(st.integers(max(4, dim), 6))
     c['tight'], c['clip'] = draw(bound_modes(c))
@@ -313,7 +313,16 @@ def build(case):
     else:
         s = ms.SparsitySolver(dim, case['npts'], rtol=case.get('rtol'))
     K = nested_class(case['nested'])
-    if case['as'] == 'instance':
+    if case['as'] == 'bare':
+        # an instance that carries only its own limits and termination: ranges, constraints, penalty and the objective
+        # are the ensemble's (SetNestedSolver accepts a configured instance; nothing says it must repeat the ensemble's settings)
+        inst = K(dim, case['NP']) if case['nested'] in ('DE', 'DE2') else K(dim)
+        inst.SetEvaluationLimits(case.get('maxiter'), case.get('maxfun'))
+        term = lab.make_termination(case.get('term', 'never'))
+        if term is not None:
+            inst.SetTermination(term)
+        s.SetNestedSolver(inst)
+    elif case['as'] == 'instance':
         # a pre-configured instance is used as given: it carries the settings (and the objective) itself
         inst = K(dim, case['NP']) if case['nested'] in ('DE', 'DE2') else K(dim)
         configure(inst, case, con, pen)
@@ -790,4 +799,13 @@ TESTS = [
 ]
 
 
-KNOWN = {}
+def _kf_bare_instance_counts(case, subcheck, detail):
+    # a nested solver given as an instance without strict ranges of its own counts the calls of the ensemble's decorated
+    # objective: points the ensemble's bounds wrapper rejects (no real cost call) are counted as evaluations
+    # (further faces of the same thing: constraints / penalty also reach the member only inside that objective, so the
+    # member stores - and the ensemble reports - the unconstrained vector it handed over, not the point that was evaluated;
+    # in step-wise mode the instance has no objective at all when it is first stepped)
+    return case.get('as') == 'bare' and subcheck in ('C09.evals', 'C09.twin', 'C09.member', 'C09.best', 'C09.no_crash', 'C09.start')
+
+
+KNOWN = {'F57-bare-nested-instance-counts-rejected-points': _kf_bare_instance_counts}
